@@ -1,18 +1,20 @@
 #!/bin/sh
 # Run the compile-fail witnesses against /repo's current tree (doc tests; twins are no_run).
 # usage: run.sh <crate dir>    prints the cargo summary line; exit 0 iff all doc tests pass
-set -e
+# The crate is copied into a scratch directory first, so that concurrent runs (against different trees) never share a manifest.
 D="$1"
-cp "${VERIF_REPO:-/repo}/Cargo.lock" "$D/Cargo.lock"
+W="$(dirname "$0")/../.work"
+mkdir -p "$W"
+T=$(mktemp -d "$W/wit-XXXXXX")
+cp -r "$D" "$T/crate"
+cp "${VERIF_REPO:-/repo}/Cargo.lock" "$T/crate/Cargo.lock"
 if [ -n "$VERIF_REPO" ] && [ "$VERIF_REPO" != "/repo" ]; then
-  sed -i "s#path = \"/repo/ffuzzy\"#path = \"$VERIF_REPO/ffuzzy\"#" "$D/Cargo.toml"
+  sed -i "s#path = \"/repo/ffuzzy\"#path = \"$VERIF_REPO/ffuzzy\"#" "$T/crate/Cargo.toml"
 fi
-T=$(mktemp -d /verif/.work/wit-XXXXXX)
-cd "$D"
-CARGO_NET_OFFLINE=true CARGO_TARGET_DIR="$T" cargo +nightly test --offline --doc 2>&1 | tail -30
+cd "$T/crate"
+CARGO_NET_OFFLINE=true CARGO_TARGET_DIR="$T/target" cargo +nightly test --offline --doc > "$T/out.txt" 2>&1
 rc=$?
+tail -30 "$T/out.txt"
+cd /
 rm -rf "$T"
-if [ -n "$VERIF_REPO" ] && [ "$VERIF_REPO" != "/repo" ]; then
-  sed -i "s#path = \"$VERIF_REPO/ffuzzy\"#path = \"/repo/ffuzzy\"#" "$D/Cargo.toml"
-fi
 exit $rc
